@@ -203,7 +203,7 @@ func runC11G(r *explore.Run) {
 		for _, ord := range wgen.C11ModOrders(h) {
 			for gi := range groups {
 				g := &groups[gi]
-				if g.Kind != h.Kind || (g.Kind == 'e' && !g.ModOK) {
+				if g.Kind != h.Kind || (g.Kind != 't' && !g.ModOK) {
 					continue
 				}
 				jobs = append(jobs, c11gJob{kind: 'm', a: int32(hi), b: int32(ord), e: int32(gi)})
@@ -363,6 +363,9 @@ func c11gScopeJob(r *explore.Run, st *c11gStats, sk *wgen.C11Skeleton, pairs []w
 			continue
 		}
 		for dk := range wgen.C11DeclKindNames {
+			if sk.SlotIsForInit(p.D) && dk != 1 {
+				continue // a for-initialiser declares with `var` only
+			}
 			nuk := 1
 			if dk == 1 && sk.SlotIsStmt(p.U) {
 				nuk = 2
